@@ -31,9 +31,14 @@ structure Flags where
   atrHashCoversFinalTxs : Bool := false
   /-- slip.rs:223 — an input older than the window is rejected (pinned: membership test only) -/
   windowChecked : Bool := false
+  /-- block.rs:3194-3217 — the per-transaction verdict of the sweep in `Block::validate` gates block validity
+      (pinned: the closure returns `true` whatever `tx.validate` said). Matters here because an ATR transaction
+      whose input slip was rewritten (multiplier > 1, `atrSpendsOriginalKey` off) spends a key that is not in
+      the utxo set: with the verdict propagated the node rejects such a block instead of winding it -/
+  txVerdictPropagated : Bool := false
   deriving Repr, DecidableEq
 
-def Flags.fixed : Flags := ⟨true, true, true, true⟩
+def Flags.fixed : Flags := ⟨true, true, true, true, true⟩
 
 /-- the fields of a utxo key -/
 structure Slip where
@@ -225,9 +230,18 @@ inductive Verdict where
   | ok | invalid | supplyPanic
   deriving Repr, DecidableEq
 
-/-- what the node does with its own block `n` -/
+/-- `Transaction::validate` → `validate_against_utxoset` for the ATR transactions of the produced block: every
+    input slip passes `Slip::validate` (membership; ATR inputs are by construction older than the window, so the
+    window rule is not applied to them) -/
+def atrInputsValid (fl : Flags) (p : Params) (u : List Slip) (outs : List Out) : Bool :=
+  (produce fl p u outs).rbs.all fun r => eligible u r.inp
+
+/-- what the node does with its own block `n`: consensus values compared first (block.rs:2686-3108), then the
+    transaction sweep (block.rs:3194; its verdict counts only with `txVerdictPropagated`), then — the block being
+    wound — the supply check -/
 def ownBlock (fl : Flags) (p : Params) (u : List Slip) (outs : List Out) : Verdict :=
   if !selfAccepts fl p u outs then .invalid
+  else if fl.txVerdictPropagated && !atrInputsValid fl p u outs then .invalid
   else if !conserved fl p u outs then .supplyPanic
   else .ok
 
